@@ -30,6 +30,7 @@ Family(f) ==
                        DDict(<< <<I(1), S("a")>>, <<I(-1), I(1)>>, <<I(-2), I(2)>> >>),
                        L(<<Tu(<<VBool(TRUE), S("b")>>), Tu(<<VFrac(1, 1), S("c")>>)>>)}
     [] f = "bad"   -> {I(1), L(<<I(1)>>), S("s"), VNone, DDict(<< <<S("a"), I(1)>> >>), Tu(<<L(<<I(1)>>), I(2)>>)}
+    [] f = "floats" -> {VFn("fB"), VFn("f1"), VFn("fnB"), VFn("f01")}          \* 2.0 ** 53, 1.0, -2.0 ** 53, 0.1
     [] f = "keys"  -> {I(1), I(2), S("a"), S("uv"), Tu(<<I(4)>>)}             \* hashable: dict keys
 NonIterables == {I(5), I(0), VNone, S("uv"), S(""), VBool(FALSE), DObj}
 
@@ -73,7 +74,8 @@ SpecsOf(form) ==
     [] form = "flatten" -> {Sp("flatten", i, "iadd", n, FALSE) : i \in {"list", "tuple", "int", "tup0"}, n \in Levels}
                            \cup {Sp("flatten", "lazy", "iadd", n, TRUE) : n \in Levels \ {0}}
     [] form = "Count"   -> {Sp("Count", "int", "count", 1, FALSE)}
-    [] form = "merge"   -> {Sp("merge", "dict", "update", 1, FALSE), Sp("merge", "odict", "update", 1, FALSE)}
+    [] form = "merge"   -> {Sp("merge", "dict", "update", 1, FALSE), Sp("merge", "odict", "update", 1, FALSE),
+                            Sp("merge", "dict", "keepfirst", 1, FALSE)}       \* merge(target, op=callable)
 AllSpecs == UNION {SpecsOf(f) : f \in Forms}
 
 VARIABLES heap0,    \* the input objects (never changes: what Frame compares with)
